@@ -40,7 +40,7 @@
 (***************************************************************************)
 EXTENDS Executor
 CONSTANTS AllUpTo,     \* batches of up to AllUpTo circuits: every composition
-          MaskFilter,  \* "any" | "first-finite" (only compositions that start finite or are all analytic)
+          MaskFilter,  \* "any" | "first-finite" (only compositions that start finite or are all analytic) | "all-finite"
           ChunkModes,  \* subset of {"single", "pool"}
           MixBug
 VARIABLES mask, chunk
@@ -55,7 +55,9 @@ MinOf(a, b) == IF a <= b THEN a ELSE b
 Family(n0) == {[i \in 1..n0 |-> IF (i + a) % p < q THEN 1 ELSE 0] : a \in 0..2, p \in 2..3, q \in 1..2}
 MaskSet(n0) ==
   LET base == IF n0 <= AllUpTo THEN [1..n0 -> {0, 1}] ELSE Family(n0)
-  IN IF MaskFilter = "first-finite" THEN {m \in base : n0 = 0 \/ m[1] = 1 \/ \A i \in 1..n0 : m[i] = 0} ELSE base
+  IN IF MaskFilter = "first-finite" THEN {m \in base : n0 = 0 \/ m[1] = 1 \/ \A i \in 1..n0 : m[i] = 0}
+     ELSE IF MaskFilter = "all-finite" THEN {m \in base : \A i \in 1..n0 : m[i] = 1}
+     ELSE base
 ChunkSize(n0, w0, mode) == IF mode = "pool" THEN MaxOf(1, (n0 + 4 * w0 - 1) \div (4 * w0)) ELSE 1
 
 MixInit == \E n0 \in TaskCounts, w0 \in WorkerCounts, r0 \in Seeds, mode \in ChunkModes :
@@ -65,7 +67,8 @@ MixInit == \E n0 \in TaskCounts, w0 \in WorkerCounts, r0 \in Seeds, mode \in Chu
 Entropy == 500                       \* marker "no seed": outside the range of the generator (0..63)
 TaskOf(v) == v \div 1000
 Obs(v) == IF mask[TaskOf(v)] = 1 THEN v ELSE 1000 * TaskOf(v)
-MixExpected(k) == LET e == ExpectedOut(k) IN [i \in 1..n |-> Obs(e[i])]
+\* = [i \in 1..n |-> Obs(ExpectedOut(k)[i])], with the seeds of round k computed once
+MixExpected(k) == LET sd == TLCEval(ExpectedSeeds(k)) IN TLCEval([i \in 1..n |-> Obs(Res(i, sd[i]))])
 ObsOuts == [k \in 1..Len(outs) |-> [i \in 1..Len(outs[k]) |-> Obs(outs[k][i])]]
 
 \* ------------------------------------------------------------ actions
@@ -124,10 +127,10 @@ MixNext == \/ MDrawSeeds
 
 \* ------------------------------------------------------------ invariants
 MixTypeOK == TypeOK /\ mask \in [1..n -> {0, 1}] /\ chunk >= 1
-MixOrderPreserved == phase = "run" => LET e == MixExpected(round) IN \A k \in 1..Len(out) : Obs(out[k]) = e[k]
+MixOrderPreserved == (phase = "run" /\ out # <<>>) => LET e == MixExpected(round) IN \A k \in 1..Len(out) : Obs(out[k]) = e[k]
 MixReproducible == \A k \in 1..Len(outs) : LET e == MixExpected(k) IN \A i \in 1..n : Obs(outs[k][i]) = e[i]
 \* an analytic circuit never shows the seed it was handed
-AnalyticSeedFree == \A k \in 1..Len(outs) : \A i \in 1..n : mask[i] = 0 => ObsOuts[k][i] = Res(i, 0)
+AnalyticSeedFree == \A k \in 1..Len(outs) : \A i \in 1..n : mask[i] = 0 => Obs(outs[k][i]) = Res(i, 0)
 MixProgress == phase = "end" \/ ENABLED MixNext
 \* ACTION_CONSTRAINT for large batches: the caller hands over the whole batch before the pool starts on it (executor.map
 \* receives complete lists); the interleaving of Submit with the rest is explored exhaustively on small batches
